@@ -393,7 +393,9 @@ func itemP(key string, rest ...string) *gpb.Path {
 	return p
 }
 
-func uintTV(u uint64) *gpb.TypedValue { return &gpb.TypedValue{Value: &gpb.TypedValue_UintVal{UintVal: u}} }
+func uintTV(u uint64) *gpb.TypedValue {
+	return &gpb.TypedValue{Value: &gpb.TypedValue_UintVal{UintVal: u}}
+}
 func strTV(s string) *gpb.TypedValue {
 	return &gpb.TypedValue{Value: &gpb.TypedValue_StringVal{StringVal: s}}
 }
@@ -536,7 +538,7 @@ func TestC22(t *testing.T) {
 				o.val, o.ll = nv, nl
 			}
 		}
-		rc := renderCfg{md: md, jo: model.JSONOpts{Prefix: rapid.Bool().Draw(rt, "json-prefix"), IdentPrefix: rapid.Bool().Draw(rt, "ident-prefix")}}
+		rc := renderCfg{md: md, jo: model.JSONOpts{Prefix: rapid.Bool().Draw(rt, "json-prefix"), IdentPrefix: rapid.Bool().Draw(rt, "ident-prefix")}, legacyPrefix: rapid.IntRange(0, 5).Draw(rt, "legacy-prefix") == 0}
 		ra, rb := w.render(a, rc), w.render(b, rc)
 		rcq := w.render(c, rc)
 		tc := ptext(rcq)
